@@ -7,7 +7,7 @@ from ..dataflow import DefUse
 from .. import events as E
 from .. import types as T
 from ..guards import guarded_by, text_atom
-from ._h_E import Flow, arg, argn, nargs, facts_full
+from ._h_E import Flow, arg, argn, nargs, facts_full, own_helper, args_by_params
 
 EXPLANATION = (
   "Decides that engine state and stored actions cannot drift apart structurally: one gateway "
@@ -189,13 +189,26 @@ def r3_change_capture(run, w):
                fi.qualname == "engine.Engine._recompute_step", fi=fi, node=c, nontrivial=False)
 
 
+def _emitting_helper(w, fn, call):
+  """The helper of fn's class that `call` invokes, if it forwards changes to summary.add_changes."""
+  h = own_helper(w, fn, call)
+  if h is None:
+    return None
+  hfn = w.fn_of(h)
+  if any(E.is_summary_add_changes(c, nm, hfn) for (n, c, nm) in hfn.calls()):
+    return h
+  return None
+
+
 def _is_flusher(w, fi):
-  """A function that forwards every _changes_map entry to summary.add_changes."""
+  """A function that forwards every _changes_map entry to summary.add_changes (directly, or
+  through a helper of its own class called per entry)."""
   fn = w.fn_of(fi)
   for s in ast.walk(fi.node):
     if isinstance(s, ast.For) and isinstance(s.iter, ast.Call) and \
         endswith(fn.name(s.iter) or "", "_changes_map.items"):
-      if any(E.is_summary_add_changes(c, fn.name(c), fn) for c in calls_in(s.body)):
+      if any(E.is_summary_add_changes(c, fn.name(c), fn) or _emitting_helper(w, fn, c) is not None
+             for c in calls_in(s.body)):
         return True
   return False
 
@@ -323,19 +336,38 @@ def r5_flush_complete(run, w):
     if ok:
       head = heads[0]
       body = flow.loop_body(head.id)
-      emits = [n for (n, c, nm) in fn.calls() if n.id in body and
-               E.is_summary_add_changes(c, nm, fn)]
+      def private_test(t, pol):
+        return isinstance(t, ast.Call) and isinstance(t.func, ast.Attribute) and \
+            t.func.attr == "is_private" and not t.args and pol is False
+      emits = [(n, c) for (n, c, nm) in fn.calls() if n.id in body and
+               (E.is_summary_add_changes(c, nm, fn) or _emitting_helper(w, fn, c) is not None)]
       ok = len(emits) == 1
-      for n in emits:
+      for (n, c) in emits:
         # the add_changes call is conditional only on the change list being non-empty and on
         # the column not being private -- however those two tests are spelled
         for (t, pol, i) in flow.facts_inside(n.id, head.id):
           if isinstance(t, ast.Name) and pol is True and flow.binder(t.id, i) is head:
             continue    # the (non-empty) changes list of this entry
-          if isinstance(t, ast.Call) and isinstance(t.func, ast.Attribute) and \
-              t.func.attr == "is_private" and not t.args and pol is False:
+          if private_test(t, pol):
             continue
           ok = False
+        h = _emitting_helper(w, fn, c)
+        if h is not None:
+          # the same, inside the helper: its only conditions are on its own argument being
+          # non-empty and on the column not being private
+          hfn = w.fn_of(h)
+          hflow = Flow(hfn)
+          hps = h.params()[1:]
+          hem = [hn for (hn, hc, hnm) in hfn.calls() if E.is_summary_add_changes(hc, hnm, hfn)]
+          ok = ok and len(hem) == 1
+          for hn in hem:
+            for (t, pol, i) in hflow.required_facts(hn.id):
+              if isinstance(t, ast.Name) and pol is True and t.id in hps and \
+                  not hflow.du.defs.get(t.id):
+                continue
+              if private_test(t, pol):
+                continue
+              ok = False
         # and nothing leaves the loop early
         ok = ok and not any(cfg.nodes[x].kind in ("break", "return") for x in body)
     run.ob(R5, f.qualname, "for node, changes in self._changes_map.items(): ... add_changes",
